@@ -98,6 +98,10 @@ type FnCtx struct {
 	inQuant     int
 	lit         *ast.FuncLit
 	curEnv      *specEnv
+	expandQuant bool
+	relied      map[string]bool // properties whose clauses are assumed (not asserted) in this run
+	rangeIdx    []*types.Var
+	staticRecvName string
 }
 
 // isOpaqueStruct: library structs whose fields are never inspected (time.Time, sync.Mutex, ...).
@@ -411,6 +415,10 @@ func (fc *FnCtx) freshVal(t types.Type, hint string) Val {
 		if isErrorType(t) {
 			x := fc.fresh(hint, SInt)
 			fc.axiom(le(mkInt(0), x))
+			if fc.entry != nil && fc.lenient {
+				// an error value first seen after entry cannot be a package-private sentinel that only this function produces
+				fc.excludePrivateSentinels(x)
+			}
 			return VInt{x}
 		}
 		id := fc.fresh(hint, SInt)
